@@ -16,12 +16,15 @@ pub struct C16 {
     /// builder order: 0 = with_style, with_tab_width; 1 = with_tab_width, with_style;
     /// 2 = with_message, with_prefix, with_tab_width, with_style; 3 = with_tab_width, with_message, with_prefix, with_style
     pub order: u8,
+    /// the bar is built with_finish(this) first: a finish message with a tab is stored until
+    /// finish_using_style() applies it (in the alphabet then)
+    pub fin: Option<Fin>,
 }
 
 impl C16 {
     fn config(&self) -> String {
         let order = ["", " builder order tab-width,style", " builder order message,prefix,tab-width,style", " builder order tab-width,message,prefix,style"][self.order as usize];
-        format!("initial_template={} with_tab_width={:?}{order}{}", self.tpl0, self.initial_tab, if self.w != 80 { format!(" terminal width {}", self.w) } else { String::new() })
+        format!("initial_template={} with_tab_width={:?}{order}{}{}", self.tpl0, self.initial_tab, if self.w != 80 { format!(" terminal width {}", self.w) } else { String::new() }, match self.fin { Some(f) => format!(" built with_finish({:?}) first", f), None => String::new() })
     }
 }
 
@@ -48,6 +51,9 @@ impl Hist for C16 {
             BOp::FinishMsg("f\t"),
             BOp::Msg("\t\t"),
         ]
+        .into_iter()
+        .chain(self.fin.map(|_| BOp::FinishUsingStyle))
+        .collect()
     }
 
     fn run(&self, hist: &[BOp], stats: &mut Stats) -> Verdict {
@@ -57,6 +63,10 @@ impl Hist for C16 {
         let mut rf = RefState::new(Some(5), Fin::AndClear, self.tpl0);
         let t = self.initial_tab.unwrap_or(8);
         rf.tab_width = t;
+        if let Some(f) = self.fin {
+            pb = pb.with_finish(f.real());
+            rf.on_finish = f;
+        }
         match self.order {
             0 => {
                 pb = pb.with_style(style(self.tpl0));
@@ -136,18 +146,21 @@ impl Hist for C16 {
 
 fn configs(tier: Tier) -> Vec<(C16, usize)> {
     let d = if tier == Tier::Quick { 5 } else { 7 };
-    let mut v = vec![(C16 { w: 80, tpl0: 2, initial_tab: None, order: 0 }, d), (C16 { w: 80, tpl0: 0, initial_tab: Some(4), order: 0 }, d - 1), (C16 { w: 80, tpl0: 1, initial_tab: Some(0), order: 0 }, d - 1)];
+    let mut v = vec![(C16 { w: 80, tpl0: 2, initial_tab: None, order: 0, fin: None }, d), (C16 { w: 80, tpl0: 0, initial_tab: Some(4), order: 0, fin: None }, d - 1), (C16 { w: 80, tpl0: 1, initial_tab: Some(0), order: 0, fin: None }, d - 1)];
     // a terminal narrower than the tab width
-    v.push((C16 { w: 6, tpl0: 1, initial_tab: None, order: 0 }, d - 2));
-    v.push((C16 { w: 3, tpl0: 0, initial_tab: Some(4), order: 0 }, d - 2));
+    v.push((C16 { w: 6, tpl0: 1, initial_tab: None, order: 0, fin: None }, d - 2));
+    v.push((C16 { w: 3, tpl0: 0, initial_tab: Some(4), order: 0, fin: None }, d - 2));
     // the other builder orders, every template, shallower
     for order in 1..=3u8 {
         for tpl0 in 0..3 {
             for tab in [0usize, 4] {
-                v.push((C16 { w: 80, tpl0, initial_tab: Some(tab), order }, d - 2));
+                v.push((C16 { w: 80, tpl0, initial_tab: Some(tab), order, fin: None }, d - 2));
             }
         }
     }
+    // a finish message with a tab, stored by with_finish before anything else and applied later
+    v.push((C16 { w: 80, tpl0: 2, initial_tab: None, order: 0, fin: Some(Fin::WithMessage) }, d - 1));
+    v.push((C16 { w: 80, tpl0: 0, initial_tab: Some(4), order: 1, fin: Some(Fin::AbandonWithMessage) }, d - 2));
     v
 }
 
